@@ -34,6 +34,9 @@ CLAIMS["C06"] = ("stateless model checking of the real code: delay-bounded exhau
 CLAIMS["C07"] = ("stateless model checking of the real code under a virtual clock: delay-bounded schedule enumeration with an in-flight monitor and a reference FIFO queue",
     "Static counts 0/1/2/None, time-stepped, None-phase, raising and dropping dynamic counts, blocking and non-blocking mode, 1-2 submitter threads, 3-6 jobs, two racing completer threads and cancellation of a queued job: every schedule to d<=1 (all cells) / d<=2 (core cells) is executed; at every hand-over in-flight <= limit(t); FIFO w.r.t. real-time order of submit(); hand-over at the instant the reference queue says a slot is free (static); blocked submit() released when the queue has room; submit() never raises.",
     "DESIGN.md section 6 C07")
+CLAIMS["C08"] = ("stateless model checking of the real code under a virtual clock: delay-bounded schedule enumeration against a descriptor-set reference computed from the event log",
+    "1-3 polled futures (delegates finishing at different virtual times, one failing), seven poll-function behaviours (yield at first/second sight, exception, double yield, raising at call 1/2, custom interval), four cancel functions, a canceller and a notify() thread: every schedule to d<=2 (sync-op granularity) / d<=1 (line granularity of poll.py) is executed; oracles: no overlap of poll calls, descriptor set contains every future eligible before the snapshot window and none already resolved, no duplicates, first yield wins, a raising call fails exactly what it was shown, first sight and notify() are prompt, cancel function only in the polling stage and its veto respected.",
+    "DESIGN.md section 6 C08")
 NOT_YET = {}
 
 props = [json.loads(l) for l in open(os.path.join(HERE, "properties.jsonl"))]
